@@ -7,10 +7,58 @@ EXPLANATION = (
     "Tag variant that nests tags - derived from the type definition through Box/Vec/FuncTag - and recurses on every nested "
     "field; (R2) every UnionFind::union call in unify() is dominated by the false edge of an occurs() check; (R3) union() "
     "always re-parents the operand proven Tag::Var; (R4) bindings are zipped only on the equal-length edge; (R5) "
-    "declarations are pre-tagged before the traversal; (R6) a module's tag variables are named by its own locator; (R7) identical tags are short-circuited before occurs() is consulted. Does not decide most-general-unifier correctness or "
+    "declarations are pre-tagged before the traversal; (R6) a module's tag variables are named by its own locator; (R7) identical tags are short-circuited before occurs() is consulted; (R8) occurs() is existential over nested tags; (R9) constrain() emits every equation of the kind rules (frozen census of 14 equations) with no early exit. Does not decide most-general-unifier correctness or "
     "order/renaming independence of the verdict, which compare results of runs.")
 ASSUMPTIONS = ["union-find path walking terminates because parents[] only ever links a variable class under another representative (R2,R3)"]
 TECHNIQUE = "static analysis: ADT walk + HIR pattern/recursion coverage + MIR dominance"
+
+
+# frozen: the equations inference::constrain generates, by position (the language's kind rules); a dropped or conditional
+# equation makes the checker accept programs whose constraints have no solution
+CONSTRAINTS = [
+    ('Relation.uri', 'Uri'), ('Relation.transfers', 'Transfer'), ('UriVariable.inner', 'Property[Primitive]'), ('UriTemplate.params', 'Object'),
+    ('ContentMeta.rhs[Headers]', 'Object'), ('ContentMeta.rhs[Media]', 'Text'), ('Transfer.params', 'Object'), ('VariadicOp.operands[Join]', 'Object'),
+    ('Application.lambda', 'Func'),
+]
+STRUCTURAL = ['Terminal.inner', 'SubExpression.inner', 'Recursion.binding', 'Recursion.rhs', 'UnaryOp.operand']
+
+
+def constraint_census(c, facts):
+    import kinds as K
+    R = c.rule('C07.R9', 'CONSTRAINT-CENSUS: constrain() emits every equation of the language\'s kind rules, unconditionally per node')
+    c.rule('C01.R0', 'anchors')
+    T = K.Tables(c, facts)
+    cs = T.constraint_side()
+    have = set()
+    for r in cs:
+        if r['pos'] and r['pos'][0] != '<param>' and r['tags']:
+            g = dict(r['guard'])
+            sub = ''
+            for en in ('ContentTagKind', 'VariadicOperator'):
+                if en in g and len(g[en]) == 1:
+                    sub = '[' + g[en][0] + ']'
+            for t in r['tags']:
+                have.add(('%s.%s%s' % (r['pos'][0], r['pos'][1], sub), t))
+        if r.get('other') and r['tags'] is None:
+            have.add(('%s.%s' % r['other'], '='))
+    for pos, tag in CONSTRAINTS:
+        if (pos, tag) in have:
+            c.ok(R, {'equation': 'tag(%s) = %s' % (pos, tag)})
+        else:
+            c.bad(R, 'equation-missing:%s=%s' % (pos, tag), 'inference::constrain no longer emits tag(%s) = %s (or emits it in a form the census cannot recognise): programs violating that kind rule are accepted' % (pos, tag))
+    for pos in STRUCTURAL:
+        if (pos, '=') in have:
+            c.ok(R, {'equation': 'tag(node) = tag(%s)' % pos})
+        else:
+            c.bad(R, 'equation-missing:node=%s' % pos, 'inference::constrain no longer equates a node with its %s' % pos)
+    # no early exit from the per-node loops: an equation must not depend on the order of sibling nodes
+    fn = c.anchor(R, 'oal_compiler::inference::constrain')
+    from facts import hir_walk
+    breaks = [e for e, anc in hir_walk(fn.hir['body']) if e['k'] in ('break', 'ret') and not e.get('exp')]
+    if breaks:
+        c.bad(R, 'constrain-exits-early', 'inference::constrain leaves a loop or returns early (line %s): whether an equation is generated depends on the order of sibling nodes' % breaks[0]['ln'])
+    else:
+        c.ok(R, {'constrain': 'no break / early return inside the traversal'})
 
 
 def run(c, facts):
@@ -20,4 +68,6 @@ def run(c, facts):
     c.run(lambda c: I.arity(c, facts, c.rule('C07.R4', 'ARITY: zip on the equal-length edge')))
     c.run(lambda c: I.var_namespace(c, facts, c.rule('C07.R6', 'VAR-NAMESPACE: tag variables are named by (module locator, counter)')))
     c.run(lambda c: I.identity_first(c, facts, c.rule('C07.R7', 'IDENTITY-FIRST: identical tags unify before the variable branches')))
+    c.run(lambda c: I.occurs_existential(c, facts, c.rule('C07.R8', 'OCCURS-ANY: the occurs check is existential over nested tags')))
+    c.run(lambda c: constraint_census(c, facts))
     c.run(lambda c: I.pre_tag(c, facts, c.rule('C07.R5', 'PRE-TAG: declarations tagged before traversal')))
